@@ -1,4 +1,5 @@
 import argparse
+import logging
 import importlib
 import json
 import os
@@ -15,6 +16,7 @@ def main():
     ap.add_argument('--seed', type=int, default=int(os.environ.get('VERIF_SEED', '0') or 0))
     ap.add_argument('--replay', default=None)
     a = ap.parse_args()
+    logging.disable(logging.CRITICAL)
     pid = a.pid.upper()
     try:
         mod = importlib.import_module('harness.props.' + pid.lower())
